@@ -24,6 +24,31 @@ static std::vector<std::string> splitCases(const std::string &text) {
   return cases;
 }
 
+#include <sys/wait.h>
+// run one case in a forked child and collect its output through a pipe
+static std::string runInFreshProcess(const std::string &text, const std::string &tag) {
+  int fd[2];
+  if (pipe(fd) != 0) return "pipe-failed";
+  std::cout.flush();
+  pid_t pid = fork();
+  if (pid == 0) {
+    close(fd[0]);
+    std::istringstream in(text); std::ostringstream out;
+    run_stream(in, out, tag);
+    std::string o = out.str();
+    size_t off = 0;
+    while (off < o.size()) { ssize_t w = write(fd[1], o.data() + off, o.size() - off); if (w <= 0) break; off += (size_t) w; }
+    close(fd[1]);
+    _exit(0);
+  }
+  close(fd[1]);
+  std::string res; char buf[65536]; ssize_t r;
+  while ((r = read(fd[0], buf, sizeof buf)) > 0) res.append(buf, (size_t) r);
+  close(fd[0]);
+  int st = 0; waitpid(pid, &st, 0);
+  return res;
+}
+
 // two interpreters fed alternately, one line each, on the calling thread
 static void runInterleaved(const std::string &a, const std::string &b, std::string &oa, std::string &ob) {
   std::istringstream ia(a), ib(b);
@@ -45,11 +70,21 @@ int main(int argc, char **argv) {
   std::vector<std::string> cases = splitCases(text);
   size_t n = cases.size();
   std::vector<std::string> solo(n), conc(n);
+  // reference: every case truly alone, in a fresh process (no process-wide or thread-local state of an
+  // earlier case can be present)
+  for (size_t i = 0; i < n; i++) solo[i] = runInFreshProcess(cases[i], "s" + std::to_string(i));
+  // (0) the same cases one after the other on this thread (the coarsest interleaving of one thread):
+  // hidden static / thread_local caches keyed by size show up here
+  size_t smism = 0;
   for (size_t i = 0; i < n; i++) {
     std::istringstream in(cases[i]); std::ostringstream out;
-    run_stream(in, out, "s" + std::to_string(i));
-    solo[i] = out.str();
+    run_stream(in, out, "q" + std::to_string(i));
+    if (out.str() != solo[i]) {
+      smism++;
+      std::cout << "MISMATCH sequential case " << cases[i].substr(5, cases[i].find('\n') - 5) << "\n";
+    }
   }
+  std::cout << "sequential comparisons " << n << " mismatches " << smism << "\n";
   unsigned rounds = argc > 1 ? atoi(argv[1]) : 3;
   size_t mism = 0, total = 0;
   for (unsigned r = 0; r < rounds; r++) {
